@@ -288,8 +288,19 @@ func (e *env) opTransfer(hostile bool) *op {
 			toB = odd(to, n)
 		}
 	}
+	// Null instead of an address (a Hash160 parameter may be Null; the notification type check refuses an
+	// empty byte string but lets Null through: seeded change C03-6)
+	var fromArg, toArg any = fromB, toB
+	if hostile && e.b.Rng.IntN(8) == 0 {
+		if e.b.Rng.IntN(2) == 0 {
+			fromArg, fromB = nil, nil
+		} else {
+			toArg, toB = nil, nil
+		}
+		e.b.Hit("transfer-with-null-address")
+	}
 	o := &op{kind: "transfer", amount: amt, from: fromB, to: toB, signers: signers, preclass: preclassOf(bal, amt)}
-	o.p = e.w.Prepare(signers, e.bal, "transfer", fromB, toB, amt, nil)
+	o.p = e.w.Prepare(signers, e.bal, "transfer", fromArg, toArg, amt, nil)
 	return o
 }
 
